@@ -1,1 +1,308 @@
-//! Reference semantics shared by several properties.
+//! Reference semantics shared by several properties (written independently of the code under test).
+
+use crate::canon::*;
+use crate::fw::Rng;
+
+pub const INT_KINDS: [&str; 10] = ["u8", "u16", "u32", "u64", "u128", "i8", "i16", "i32", "i64", "i128"];
+pub const NUM_KINDS: [&str; 14] = ["u8", "u16", "u32", "u64", "u128", "i8", "i16", "i32", "i64", "i128", "f32", "f64", "r64", "c64"];
+pub const ALL_KINDS: [&str; 16] = ["u8", "u16", "u32", "u64", "u128", "i8", "i16", "i32", "i64", "i128", "f32", "f64", "r64", "c64", "bool", "string"];
+pub const REAL_KINDS: [&str; 13] = ["u8", "u16", "u32", "u64", "u128", "i8", "i16", "i32", "i64", "i128", "f32", "f64", "r64"];
+
+pub fn is_unsigned(k: &str) -> bool { k.starts_with('u') }
+pub fn is_signed(k: &str) -> bool { k.starts_with('i') }
+pub fn is_int(k: &str) -> bool { is_unsigned(k) || is_signed(k) }
+pub fn is_float(k: &str) -> bool { k == "f32" || k == "f64" }
+pub fn bits(k: &str) -> u32 { k[1..].parse().unwrap_or(64) }
+
+pub fn int_min(k: &str) -> i128 { if is_unsigned(k) { 0 } else if bits(k) == 128 { i128::MIN } else { -(1i128 << (bits(k) - 1)) } }
+/// max as u128 (covers u128)
+pub fn int_max_u(k: &str) -> u128 {
+  let b = bits(k);
+  if is_unsigned(k) { if b == 128 { u128::MAX } else { (1u128 << b) - 1 } } else { if b == 128 { i128::MAX as u128 } else { (1u128 << (b - 1)) - 1 } }
+}
+
+/// Integer scalar as a sign + magnitude pair that covers both i128 and u128: (negative, magnitude)
+#[derive(Clone, Copy, Debug, PartialEq, Eq)]
+pub struct Big { pub neg: bool, pub mag: u128 }
+impl Big {
+  pub fn from_sc(s: &Sc) -> Option<Big> { match s { Sc::U(x) => Some(Big { neg: false, mag: *x }), Sc::I(x) => Some(Big { neg: *x < 0, mag: x.unsigned_abs() }), _ => None } }
+  pub fn norm(self) -> Big { if self.mag == 0 { Big { neg: false, mag: 0 } } else { self } }
+  pub fn fits(self, k: &str) -> bool {
+    let s = self.norm();
+    if s.neg { if is_unsigned(k) { false } else { s.mag <= int_min(k).unsigned_abs() } } else { s.mag <= int_max_u(k) }
+  }
+  pub fn to_cval(self, k: &str) -> CVal {
+    let s = self.norm();
+    if is_unsigned(k) { sc_u(k, s.mag) } else { sc_i(k, if s.neg { (s.mag as i128).wrapping_neg() } else { s.mag as i128 }) }
+  }
+  pub fn add(self, o: Big) -> Option<Big> {
+    if self.neg == o.neg { self.mag.checked_add(o.mag).map(|m| Big { neg: self.neg, mag: m }.norm()) }
+    else if self.mag >= o.mag { Some(Big { neg: self.neg, mag: self.mag - o.mag }.norm()) }
+    else { Some(Big { neg: o.neg, mag: o.mag - self.mag }.norm()) }
+  }
+  pub fn negate(self) -> Big { Big { neg: !self.neg, mag: self.mag }.norm() }
+  pub fn sub(self, o: Big) -> Option<Big> { self.add(o.negate()) }
+  pub fn mul(self, o: Big) -> Option<Big> { self.mag.checked_mul(o.mag).map(|m| Big { neg: self.neg != o.neg, mag: m }.norm()) }
+  pub fn cmp(self, o: Big) -> std::cmp::Ordering {
+    let (a, b) = (self.norm(), o.norm());
+    match (a.neg, b.neg) { (false, true) => std::cmp::Ordering::Greater, (true, false) => std::cmp::Ordering::Less, (false, false) => a.mag.cmp(&b.mag), (true, true) => b.mag.cmp(&a.mag) }
+  }
+}
+
+/// What the property allows a scalar result to be.
+#[derive(Clone, Debug)]
+pub enum Exp {
+  Exact(CVal),
+  OneOf(Vec<CVal>),
+  /// f64 result within `ulps` of the given value (pow)
+  NearF64(f64, u64),
+  NearF32(f32, u32),
+  /// the property does not constrain the result (value or error)
+  Free,
+}
+
+impl Exp {
+  pub fn admits(&self, got: &CVal) -> bool {
+    match self {
+      Exp::Exact(v) => v == got,
+      Exp::OneOf(vs) => vs.iter().any(|v| v == got),
+      Exp::Free => true,
+      Exp::NearF64(x, u) => match got { CVal::S(k, Sc::F64(b)) if k == "f64" => near_f64(*x, f64::from_bits(*b), *u), _ => false },
+      Exp::NearF32(x, u) => match got { CVal::S(k, Sc::F32(b)) if k == "f32" => near_f32(*x, f32::from_bits(*b), *u), _ => false },
+    }
+  }
+  pub fn show(&self) -> String {
+    match self { Exp::Exact(v) => v.show(), Exp::OneOf(v) => format!("one of {}", v.iter().map(|x| x.show()).collect::<Vec<_>>().join(" | ")), Exp::NearF64(x, u) => format!("{:?}±{}ulp", x, u), Exp::NearF32(x, u) => format!("{:?}±{}ulp", x, u), Exp::Free => "unconstrained".into() }
+  }
+}
+
+fn ord_f64(x: f64) -> i128 { let b = x.to_bits() as i64; (if b < 0 { i64::MIN.wrapping_sub(b) } else { b }) as i128 }
+pub fn near_f64(a: f64, b: f64, ulps: u64) -> bool {
+  if a.is_nan() || b.is_nan() { return a.is_nan() && b.is_nan(); }
+  if a == b { return true; }
+  (ord_f64(a) - ord_f64(b)).unsigned_abs() <= ulps as u128
+}
+fn ord_f32(x: f32) -> i64 { let b = x.to_bits() as i32; (if b < 0 { i32::MIN.wrapping_sub(b) } else { b }) as i64 }
+pub fn near_f32(a: f32, b: f32, ulps: u32) -> bool {
+  if a.is_nan() || b.is_nan() { return a.is_nan() && b.is_nan(); }
+  if a == b { return true; }
+  (ord_f32(a) - ord_f32(b)).unsigned_abs() <= ulps as u64
+}
+
+fn gcd(a: i128, b: i128) -> i128 { let (mut a, mut b) = (a.abs(), b.abs()); while b != 0 { let t = a % b; a = b; b = t; } a }
+/// reduced rational in i64 if it fits
+pub fn rat(n: i128, d: i128) -> Option<CVal> {
+  if d == 0 { return None; }
+  let g = gcd(n, d).max(1);
+  let (mut n, mut d) = (n / g, d / g);
+  if d < 0 { n = -n; d = -d; }
+  if n < i64::MIN as i128 || n > i64::MAX as i128 || d > i64::MAX as i128 { return None; }
+  Some(sc_r(n as i64, d as i64))
+}
+
+pub const BINOPS: [&str; 15] = ["+", "-", "*", "/", "%", "^", "==", "!=", "<", "<=", ">", ">=", "&&", "||", "⊻"];
+pub const UNOPS: [&str; 2] = ["neg", "not"];
+
+pub fn is_cmp(op: &str) -> bool { matches!(op, "==" | "!=" | "<" | "<=" | ">" | ">=") }
+pub fn is_logic(op: &str) -> bool { matches!(op, "&&" | "||" | "⊻" | "not") }
+
+fn cmp_res(op: &str, o: Option<std::cmp::Ordering>) -> Exp {
+  use std::cmp::Ordering::*;
+  let r = match (op, o) {
+    ("==", Some(Equal)) => true, ("==", _) => false,
+    ("!=", Some(Equal)) => false, ("!=", _) => true,
+    ("<", Some(Less)) => true, ("<", _) => false,
+    ("<=", Some(Less)) | ("<=", Some(Equal)) => true, ("<=", _) => false,
+    (">", Some(Greater)) => true, (">", _) => false,
+    (">=", Some(Greater)) | (">=", Some(Equal)) => true, (">=", _) => false,
+    _ => return Exp::Free,
+  };
+  Exp::Exact(sc_b(r))
+}
+
+/// Reference result of `a op b` on scalars of one kind, as far as the property constrains it.
+pub fn ref_binop(op: &str, k: &str, a: &Sc, b: &Sc) -> Exp {
+  if is_int(k) {
+    let (x, y) = match (Big::from_sc(a), Big::from_sc(b)) { (Some(x), Some(y)) => (x, y), _ => return Exp::Free };
+    let fit = |r: Option<Big>| match r { Some(r) if r.fits(k) => Exp::Exact(r.to_cval(k)), _ => Exp::Free };
+    return match op {
+      "+" => fit(x.add(y)),
+      "-" => fit(x.sub(y)),
+      "*" => fit(x.mul(y)),
+      "/" => {
+        if y.mag == 0 { return Exp::Free; }
+        let q = x.mag / y.mag; let r = x.mag % y.mag;
+        let neg = x.neg != y.neg;
+        if r == 0 { fit(Some(Big { neg, mag: q })) }
+        else {
+          // between floor and ceiling of the exact quotient
+          let lo = Big { neg, mag: q }.norm();
+          let hi = Big { neg, mag: q + 1 }.norm();
+          let mut v = vec![];
+          if lo.fits(k) { v.push(lo.to_cval(k)); }
+          if hi.fits(k) { v.push(hi.to_cval(k)); }
+          if v.is_empty() { Exp::Free } else { Exp::OneOf(v) }
+        }
+      }
+      "%" => {
+        if y.mag == 0 { return Exp::Free; }
+        let r = x.mag % y.mag;
+        // truncated remainder has the sign of x; floored has the sign of y; euclidean is non-negative
+        let mut v = vec![];
+        let t = Big { neg: x.neg, mag: r }.norm();
+        if t.fits(k) { v.push(t.to_cval(k)); }
+        if r != 0 {
+          let other = Big { neg: !x.neg, mag: y.mag - r }.norm();
+          if other.fits(k) { v.push(other.to_cval(k)); }
+        }
+        Exp::OneOf(v)
+      }
+      "^" => {
+        if y.neg { return Exp::Free; }
+        let mut acc = Some(Big { neg: false, mag: 1 });
+        let mut e = y.mag;
+        if e > 300 { // only 0,1,-1 bases stay representable
+          if x.mag > 1 { return Exp::Free; }
+        }
+        let mut i = 0u128;
+        while i < e.min(300) { acc = acc.and_then(|a| a.mul(x)); if acc.is_none() { break; } i += 1; }
+        if e > 300 { e = e % 2; acc = if x.mag == 0 { Some(Big { neg: false, mag: 0 }) } else if x.neg && e == 1 { Some(Big { neg: true, mag: 1 }) } else { Some(Big { neg: false, mag: 1 }) }; }
+        fit(acc)
+      }
+      "==" | "!=" | "<" | "<=" | ">" | ">=" => cmp_res(op, Some(x.cmp(y))),
+      _ => Exp::Free,
+    };
+  }
+  match (k, a, b) {
+    ("f64", Sc::F64(x), Sc::F64(y)) => {
+      let (x, y) = (f64::from_bits(*x), f64::from_bits(*y));
+      match op {
+        "+" => Exp::Exact(sc_f64(x + y)),
+        "-" => Exp::Exact(sc_f64(x - y)),
+        "*" => Exp::Exact(sc_f64(x * y)),
+        "/" => Exp::Exact(sc_f64(x / y)),
+        "%" => { let fm = x % y; let ieee = ieee_rem_f64(x, y); let mut v = vec![sc_f64(fm)]; if let Some(r) = ieee { v.push(sc_f64(r)); } if fm != 0.0 && !fm.is_nan() { v.push(sc_f64(fm + y)); v.push(sc_f64(fm - y)); } Exp::OneOf(v) }
+        "^" => Exp::NearF64(x.powf(y), 1),
+        _ if is_cmp(op) => cmp_res(op, x.partial_cmp(&y)),
+        _ => Exp::Free,
+      }
+    }
+    ("f32", Sc::F32(x), Sc::F32(y)) => {
+      let (x, y) = (f32::from_bits(*x), f32::from_bits(*y));
+      match op {
+        "+" => Exp::Exact(sc_f32(x + y)),
+        "-" => Exp::Exact(sc_f32(x - y)),
+        "*" => Exp::Exact(sc_f32(x * y)),
+        "/" => Exp::Exact(sc_f32(x / y)),
+        "%" => { let fm = x % y; let mut v = vec![sc_f32(fm)]; if fm != 0.0 && !fm.is_nan() { v.push(sc_f32(fm + y)); v.push(sc_f32(fm - y)); } Exp::OneOf(v) }
+        "^" => Exp::NearF32(x.powf(y), 1),
+        _ if is_cmp(op) => cmp_res(op, x.partial_cmp(&y)),
+        _ => Exp::Free,
+      }
+    }
+    ("r64", Sc::R(an, ad), Sc::R(bn, bd)) => {
+      let (an, ad, bn, bd) = (*an as i128, *ad as i128, *bn as i128, *bd as i128);
+      let ex = |r: Option<CVal>| r.map(Exp::Exact).unwrap_or(Exp::Free);
+      match op {
+        "+" => ex(rat(an * bd + bn * ad, ad * bd)),
+        "-" => ex(rat(an * bd - bn * ad, ad * bd)),
+        "*" => ex(rat(an * bn, ad * bd)),
+        "/" => if bn == 0 { Exp::Free } else { ex(rat(an * bd, ad * bn)) },
+        _ if is_cmp(op) => cmp_res(op, Some((an * bd).cmp(&(bn * ad)))),
+        _ => Exp::Free,
+      }
+    }
+    ("c64", Sc::C(ar, ai), Sc::C(br, bi)) => {
+      let (ar, ai, br, bi) = (f64::from_bits(*ar), f64::from_bits(*ai), f64::from_bits(*br), f64::from_bits(*bi));
+      match op {
+        "+" => Exp::Exact(sc_c(ar + br, ai + bi)),
+        "-" => Exp::Exact(sc_c(ar - br, ai - bi)),
+        "==" => Exp::Exact(sc_b(ar == br && ai == bi)),
+        "!=" => Exp::Exact(sc_b(!(ar == br && ai == bi))),
+        _ => Exp::Free,
+      }
+    }
+    ("bool", Sc::B(x), Sc::B(y)) => match op {
+      "&&" => Exp::Exact(sc_b(*x && *y)),
+      "||" => Exp::Exact(sc_b(*x || *y)),
+      "⊻" => Exp::Exact(sc_b(*x != *y)),
+      "==" => Exp::Exact(sc_b(x == y)),
+      "!=" => Exp::Exact(sc_b(x != y)),
+      _ => Exp::Free,
+    },
+    ("string", Sc::S(x), Sc::S(y)) => match op {
+      "==" => Exp::Exact(sc_b(x == y)),
+      "!=" => Exp::Exact(sc_b(x != y)),
+      _ => Exp::Free,
+    },
+    _ => Exp::Free,
+  }
+}
+
+fn ieee_rem_f64(x: f64, y: f64) -> Option<f64> {
+  if !x.is_finite() || y == 0.0 || y.is_nan() { return None; }
+  if y.is_infinite() { return Some(x); }
+  let n = (x / y).round(); // ties away; good enough as an *additional* accepted value
+  let r = x - n * y;
+  if r.is_finite() { Some(r) } else { None }
+}
+
+pub fn ref_unop(op: &str, k: &str, a: &Sc) -> Exp {
+  match (op, k, a) {
+    ("neg", _, _) if is_int(k) => { let x = Big::from_sc(a).unwrap().negate(); if x.fits(k) { Exp::Exact(x.to_cval(k)) } else { Exp::Free } }
+    ("neg", "f64", Sc::F64(x)) => Exp::Exact(sc_f64(-f64::from_bits(*x))),
+    ("neg", "f32", Sc::F32(x)) => Exp::Exact(sc_f32(-f32::from_bits(*x))),
+    ("neg", "r64", Sc::R(n, d)) => rat(-(*n as i128), *d as i128).map(Exp::Exact).unwrap_or(Exp::Free),
+    ("neg", "c64", Sc::C(r, i)) => Exp::Exact(sc_c(-f64::from_bits(*r), -f64::from_bits(*i))),
+    ("not", "bool", Sc::B(x)) => Exp::Exact(sc_b(!*x)),
+    _ => Exp::Free,
+  }
+}
+
+// ---------------------------------------------------------------------------------------------
+// value pools
+
+/// A "benign" value for kind k derived from a small integer n (distinct n give distinct values).
+pub fn small_val(k: &str, n: i64) -> Sc {
+  match k {
+    _ if is_unsigned(k) => Sc::U(n.unsigned_abs() as u128),
+    _ if is_signed(k) => Sc::I(n as i128),
+    "f64" => Sc::f64(n as f64 + if n % 2 == 0 { 0.5 } else { 0.25 }),
+    "f32" => Sc::f32(n as f32 + if n % 2 == 0 { 0.5 } else { 0.25 }),
+    "r64" => { let c = rat(n as i128 * 2 + 1, 2 + (n.rem_euclid(3)) as i128).unwrap(); if let CVal::S(_, s) = c { s } else { unreachable!() } }
+    "c64" => Sc::C(canon_f64(n as f64), canon_f64((n + 1) as f64 * 0.5)),
+    "bool" => Sc::B(n % 2 != 0),
+    "string" => Sc::S(format!("s{}", n)),
+    _ => panic!("small_val kind {}", k),
+  }
+}
+
+pub fn boundary_pool(k: &str) -> Vec<Sc> {
+  match k {
+    _ if is_unsigned(k) => { let m = int_max_u(k); vec![Sc::U(0), Sc::U(1), Sc::U(2), Sc::U(m), Sc::U(m - 1), Sc::U(m / 2), Sc::U(m / 2 + 1)] }
+    _ if is_signed(k) => { let m = int_max_u(k) as i128; let lo = int_min(k); vec![Sc::I(0), Sc::I(1), Sc::I(-1), Sc::I(2), Sc::I(m), Sc::I(m - 1), Sc::I(lo), Sc::I(lo + 1)] }
+    "f64" => [0.0, -0.0, 1.0, -1.0, 0.1, 0.5, 2.0, 3.0, 9007199254740992.0, 9007199254740993.0, f64::MAX, f64::MIN_POSITIVE, 5e-324, f64::INFINITY, f64::NEG_INFINITY, f64::NAN, 1e308, -2.5].iter().map(|x| Sc::f64(*x)).collect(),
+    "f32" => [0.0f32, -0.0, 1.0, -1.0, 0.1, 0.5, 2.0, 3.0, 16777216.0, 16777217.0, f32::MAX, f32::MIN_POSITIVE, 1e-45, f32::INFINITY, f32::NEG_INFINITY, f32::NAN, -2.5].iter().map(|x| Sc::f32(*x)).collect(),
+    "r64" => vec![Sc::R(0, 1), Sc::R(1, 1), Sc::R(-1, 1), Sc::R(1, 2), Sc::R(-3, 4), Sc::R(7, 3), Sc::R(1000003, 7), Sc::R(5, 1000003)],
+    "c64" => vec![Sc::C(canon_f64(0.0), canon_f64(0.0)), Sc::C(canon_f64(1.0), canon_f64(0.0)), Sc::C(canon_f64(0.0), canon_f64(1.0)), Sc::C(canon_f64(-2.0), canon_f64(3.5)), Sc::C(canon_f64(1.5), canon_f64(-0.5))],
+    "bool" => vec![Sc::B(false), Sc::B(true)],
+    "string" => vec![Sc::S("".into()), Sc::S("a".into()), Sc::S("ab".into()), Sc::S("é✓".into()), Sc::S("a b".into())],
+    _ => panic!("pool kind {}", k),
+  }
+}
+
+/// random value of kind k; `benign` keeps magnitudes small enough that + - * stay representable
+pub fn rand_val(k: &str, rng: &mut Rng, benign: bool) -> Sc {
+  if !benign && rng.chance(1, 3) { let p = boundary_pool(k); return rng.pick(&p).clone(); }
+  match k {
+    _ if is_unsigned(k) => { let hi = if benign { 11.min(int_max_u(k)) } else { int_max_u(k) }; Sc::U(if hi == u128::MAX { ((rng.next() as u128) << 64) | rng.next() as u128 } else { (((rng.next() as u128) << 64) | rng.next() as u128) % (hi + 1) }) }
+    _ if is_signed(k) => { if benign { Sc::I(rng.range(-9, 11) as i128) } else { let m = int_max_u(k); let mag = (((rng.next() as u128) << 64) | rng.next() as u128) % (m + 1); Sc::I(if rng.chance(1, 2) { -(mag as i128) } else { mag as i128 }) } }
+    "f64" => { if benign { Sc::f64(rng.range(-40, 40) as f64 / 4.0) } else { Sc::f64(f64::from_bits(rng.next())) } }
+    "f32" => { if benign { Sc::f32(rng.range(-40, 40) as f32 / 4.0) } else { Sc::f32(f32::from_bits(rng.next() as u32)) } }
+    "r64" => { let d = rng.range(1, 9) as i128; let n = rng.range(-20, 20) as i128; if let CVal::S(_, s) = rat(n, d).unwrap() { s } else { unreachable!() } }
+    "c64" => Sc::C(canon_f64(rng.range(-12, 12) as f64 / 2.0), canon_f64(rng.range(-12, 12) as f64 / 2.0)),
+    "bool" => Sc::B(rng.chance(1, 2)),
+    "string" => { let n = rng.below(4); Sc::S((0..n).map(|_| *rng.pick(&['a', 'b', 'c', 'é', ' ', 'Z'])).collect()) }
+    _ => panic!("rand kind {}", k),
+  }
+}
